@@ -96,6 +96,7 @@ func genC13Data(r *rand.Rand) c13Data {
 }
 
 type c13Case struct {
+	Kind      string    `json:"kind,omitempty"` // "" = hwmon; "file" / "cmd": only the clauses that hold for every fan
 	NeverStop bool      `json:"neverStop"`
 	CfgMin    *int      `json:"cfgMin,omitempty"`
 	CfgStart  *int      `json:"cfgStart,omitempty"`
@@ -106,9 +107,19 @@ type c13Case struct {
 func c13Run(ctx *Ctx, c *c13Case) {
 	cfg := configuration.FanConfig{ID: uniqueId("c13fan"), NeverStop: c.NeverStop, MinPwm: c.CfgMin, StartPwm: c.CfgStart, MaxPwm: c.CfgMax,
 		HwMon: &configuration.HwMonFanConfig{Platform: "x", Index: 1, PwmPath: "/nonexistent/pwm1", RpmInputPath: "/nonexistent/fan1_input", PwmEnablePath: "/nonexistent/pwm1_enable"}}
+	switch c.Kind {
+	case "file":
+		cfg.HwMon, cfg.File = nil, &configuration.FileFanConfig{Path: "/nonexistent/pwm", RpmPath: "/nonexistent/rpm"}
+	case "cmd":
+		cfg.HwMon, cfg.Cmd = nil, &configuration.CmdFanConfig{SetPwm: &configuration.ExecConfig{Exec: "/nonexistent/set", Args: []string{"%pwm%"}}}
+	}
 	fan, err := fans.NewFan(cfg)
 	if err != nil {
 		ctx.Inconclusive("NewFan: " + err.Error())
+		return
+	}
+	if c.Kind != "" {
+		c13OtherBackends(ctx, c, fan)
 		return
 	}
 	cfgClass := fmt.Sprintf("min=%v:start=%v:max=%v", c.CfgMin != nil, c.CfgStart != nil, c.CfgMax != nil)
@@ -191,6 +202,56 @@ func c13Run(ctx *Ctx, c *c13Case) {
 	}
 }
 
+// file and cmd fans have no measured curve; what the property says about every fan is checked on them: a fan
+// without neverStop has minimum 0 whatever the configuration gives, limits stay in 0..255 and are stable, and
+// nothing panics when curve data is attached.
+func c13OtherBackends(ctx *Ctx, c *c13Case, fan fans.Fan) {
+	cfgClass := fmt.Sprintf("%s:min=%v:start=%v:max=%v", c.Kind, c.CfgMin != nil, c.CfgStart != nil, c.CfgMax != nil)
+	check := func(when string) bool {
+		var l [3]int
+		panicked, msg := Guard(func() { l = [3]int{fan.GetMinPwm(), fan.GetStartPwm(), fan.GetMaxPwm()} })
+		ctx.Eval(1)
+		if panicked {
+			ctx.Violation("panic-in-limit-getter:"+c.Kind, fmt.Sprintf("%s: %s", jsonStr(c), msg), c)
+			return false
+		}
+		for _, v := range l {
+			if v < 0 || v > 255 {
+				ctx.Violation("limit-outside-0..255:"+c.Kind, fmt.Sprintf("%s -> %v", jsonStr(c), l), c)
+			}
+		}
+		if !c.NeverStop && l[0] != 0 {
+			ctx.Violation("minimum-not-0-without-neverStop:"+when+":"+cfgClass, fmt.Sprintf("%s -> min %d", jsonStr(c), l[0]), c)
+		}
+		return true
+	}
+	if !check("first") {
+		return
+	}
+	for _, d := range c.Attach {
+		panicked, msg := Guard(func() {
+			if d == nil {
+				_ = fan.AttachFanRpmCurveData(nil)
+			} else {
+				m := map[int]float64{}
+				for k, v := range d {
+					m[k] = v
+				}
+				_ = fan.AttachFanRpmCurveData(&m)
+			}
+		})
+		if panicked {
+			ctx.Violation("panic-in-attach:"+c.Kind, fmt.Sprintf("%s: %s", jsonStr(c), msg), c)
+			return
+		}
+		if !check("reattach") {
+			return
+		}
+	}
+	ctx.Nontrivial(hash64(jsonStr(c)))
+	ctx.AddSet("config_combination_x_attachments", fmt.Sprintf("%s|ns=%v", cfgClass, c.NeverStop))
+}
+
 func init() {
 	register("C13", func(ctx *Ctx) {
 		r := ctx.Rng
@@ -245,6 +306,10 @@ func init() {
 		nr := ctx.N(300000, 4000000)
 		for i := 0; i < nr; i++ {
 			c := &c13Case{NeverStop: r.Intn(3) > 0}
+			if i%16 == 7 {
+				c.Kind = pick(r, "file", "cmd")
+				c.NeverStop = r.Intn(2) == 0
+			}
 			cfgs(c, r.Intn(8))
 			k := 1 + r.Intn(4)
 			for j := 0; j < k; j++ {
